@@ -3,7 +3,7 @@ along the fault-schedule pipeline; concrete execution, labelled as such in the e
 from symx.api import harness
 from harness import pipeline as P, pipeline_oracles as O
 
-PARAMS = [(proto, tr) for proto in ('json', 'xml', 'soap11', 'http-json', 'http-soap11', 'soap11-json')
+PARAMS = [(proto, tr) for proto in ('json', 'xml', 'soap11', 'http-json', 'http-soap11', 'soap11-json', 'json-jsonp')
           for tr in ('server', 'wsgi-chunked') if not (P.in_of(proto) == 'http' and tr == 'server')]
 
 
@@ -60,5 +60,39 @@ def truncated_prefixes(sx, p):
     rec.trace = list(P.TRACE)
     problems = O.check_hostile({'proto': proto, 'transport': transport, 'request': 'truncated', 'stage': 'none',
                                 'level': None}, rec)
+    sx.observe('problems', problems)
+    return not problems
+
+
+FALSY_BODIES = [b'{"work": {}}', b'{"work": []}', b'{"work": ""}', b'{"work": 0}', b'{"work": false}', b'{"work": null}',
+                b'{"small": {}}', b'{"small": []}']
+
+
+@harness('C10', params=['server', 'wsgi-chunked'],
+         functions=['spyne.protocol.dictdoc.hier.HierDictDocument.deserialize',
+                    'spyne.protocol.dictdoc.hier.HierDictDocument._doc_to_object'],
+         bounds={'requests': 'a registered method whose argument container is empty or a falsy scalar (8 concrete documents)'})
+def json_falsy_argument_containers(sx, transport):
+    """an empty or falsy argument container is either served (arguments absent) or refused with a Client fault; it is
+    never turned into a Server fault"""
+    body = sx.choose('body', FALSY_BODIES)
+    app = P.get_app('json')
+    rec = P.Record()
+    del P.TRACE[:]
+    P.BEHAVE.clear()
+    if transport == 'server':
+        P._run_server(app, body, {}, rec)
+    else:
+        P._run_wsgi(app, body, {}, rec, chunked=True)
+    problems = []
+    if rec.escaped is not None:
+        problems.append('exception escaped: %r' % (rec.escaped,))
+    resp = P.parse_response('json', rec.body)
+    if resp[0] == 'fault' and not (resp[1] or '').startswith('Client'):
+        problems.append('fault code %r for an empty argument container' % (resp[1],))
+    if resp[0] == 'unparsed':
+        problems.append('unparsable response')
+    if rec.start_response and rec.start_response[0][0][:1] not in ('2', '4'):
+        problems.append('HTTP status %r' % (rec.start_response[0][0],))
     sx.observe('problems', problems)
     return not problems
